@@ -165,6 +165,18 @@ def encodeGroup (bw bh w : Nat) (encBlock : List α → Nat → List β) (buf : 
 def encBlocks (bw bh w : Nat) (encBlock : List α → Nat → List β) (img : List (List α)) : List β :=
   (rowGroupBuffers bh img).flatMap (encodeGroup bw bh w encBlock)
 
+/-- how the block encoders read their slice (`get_4x4_rgba`, `get_4x4_grayscale`, …:
+`block[i * 4 + j] = data[i * row_pitch + j]`): the `bw × bh` pixels at the start of the slice -/
+def blockAt (bw bh : Nat) (data : List α) (pitch : Nat) : List α :=
+  (List.range bh).flatMap fun i => (data.drop (i * pitch)).take bw
+
+/-- the blocks of a row group `g` (rows of `w` pixels), without any buffer: block column `bi` holds
+of every row the pixels `[bi·bw, bi·bw + bw)`, a run cut short by the right edge being padded with
+its last pixel -/
+def groupBlocks (bw w : Nat) (g : List (List α)) : List (List α) :=
+  (List.range (divCeil w bw)).map fun bi =>
+    g.flatMap fun row => padLast bw ((row.drop (bi * bw)).take bw)
+
 /-! ## (d) bi-planar: `bi_planar_universal` -/
 
 /-- plane 1 of every row pair is written as the pair is processed, the plane-2 samples are pushed
